@@ -174,6 +174,22 @@ func verifECFaultTolerance(seed []byte, length uint32, shape uint8, faultMask ui
 		case 1:
 			if len(b) > 0 {
 				at := int(cut) % len(b)
+				if cut&(1<<30) != 0 {
+					// half of the cuts are aimed at the joints of the frame layout: right behind a frame header, one byte
+					// to either side of it, one byte into a frame
+					var joints []int
+					for off := range boundaries {
+						for _, d := range []int{frameHeaderSize, frameHeaderSize - 1, frameHeaderSize + 1, 1} {
+							if off+d < len(b) {
+								joints = append(joints, off+d)
+							}
+						}
+					}
+					sort.Ints(joints)
+					if len(joints) > 0 {
+						at = joints[int(cut&0xffff)%len(joints)]
+					}
+				}
 				for boundaries[at] && at > 0 {
 					at-- // a cut exactly between two frames is the subject of verifECCutBetweenFrames
 				}
